@@ -75,6 +75,10 @@ Judge(e) ==
       [] e.ev = "Determine" -> JudgeDetermine(e)
       [] e.ev = "Run"       -> JudgeRun(e)
       [] e.ev = "Call"      -> JudgeCall(e)
+      \* a variant that is not part of the HMM (no read links it to another variant) does not influence the calls of the others:
+      \* the run with and the run without that record report the same GT / GQ / GL for the remaining variants
+      [] e.ev = "Gap"       -> /\ Check(e, "Returns", e.exc = "")
+                               /\ e.exc = "" => Check(e, "OutsideVariantIsIrrelevant", e.a = e.b)
       [] e.ev = "Crashed"   -> Fail(e, "Returns")
       [] OTHER              -> Fail(e, "UnknownEvent")
 
